@@ -4,9 +4,13 @@ go 1.18
 
 require (
 	github.com/emersion/go-imap/v2 v2.0.0-00010101000000-000000000000
+	github.com/emersion/go-sasl v0.0.0-20231106173351-e73c9f7bad43
 	golang.org/x/text v0.14.0
 )
 
-require github.com/emersion/go-sasl v0.0.0-20231106173351-e73c9f7bad43 // indirect
+require (
+	github.com/emersion/go-message v0.18.0 // indirect
+	github.com/emersion/go-textwrapper v0.0.0-20200911093747-65d896831594 // indirect
+)
 
 replace github.com/emersion/go-imap/v2 => /repo
